@@ -4,7 +4,7 @@
 (* C04 (rows map one-to-one onto instance and body), C02 (closure and uniqueness) and the        *)
 (* structural part of C17 (predicted rejections happen; never an internal exception).            *)
 (* A batch file holds many traces; one initial state per trace (tid).                            *)
-EXTENDS RowParser, Json, IOUtils
+EXTENDS RowParser, Refs, Json, IOUtils
 
 VARIABLES tid, l
 tvars == <<rpvars, tid, l>>
@@ -113,16 +113,41 @@ C02Env ==
                              IN \A a, b \in 1..Len(sub) : (a < b /\ sub[a].p = sub[b].p) =>
                                    \E c \in a..b : Len(sub[c].p) < Len(sub[a].p))
 
+(* ------------------------------------------------------------------ C03: one ${name} substitution *)
+\* (hook on Survey._var_repl_function; the tree is the specification's own `nodes`, rebuilt from the row events)
+RefOK(ev) ==
+  IF ev.err THEN Check("ref_error_only_if_unresolvable", ~NameKnown(nodes, ev.name))
+  ELSE /\ Check("ref_name_resolvable", NameKnown(nodes, ev.name))
+       /\ Check("ref_output_parses", ev.parse_ok)
+       /\ Check("ref_up_within_context", ev.e.abs \/ ev.e.up <= Len(ev.ctx))
+       /\ Check("ref_reaches_target", Resolve(ev.ctx, ev.e) = XPathOf(nodes, ev.name))
+       /\ Check("ref_relative_inside_shared_repeat",
+                (MustBeRelative(nodes, ev.ctx, XPathOf(nodes, ev.name)) /\ ~ev.ls /\ ~ev.in_ir /\ ev.ctxok) => ~ev.e.abs)
+       /\ Check("ref_last_saved_instance", ev.ls <=> (ev.e.inst = "__last-saved"))
+       /\ Check("ref_last_saved_absolute", ev.ls => ev.e.abs)
+       /\ Check("ref_current_in_predicate", (ev.in_pred /\ ~ev.e.abs) => ev.e.cur)
+
+TRef == /\ l <= Len(T) /\ Ev.ev = "ref"
+        /\ Check("ref_before_tree_done", outcome.status = "done" \/ (outcome.status = "error" /\ outcome.kind = "bad_ref"))
+        /\ (Prop = "C03" => RefOK(Ev))
+        /\ l' = l + 1 /\ UNCHANGED <<rpvars, tid>>
+
+C03Env == /\ Check("no_residual_reference", Ev.residual = 0)
+          /\ Check("every_source_reference_substituted",
+                   \A i \in 1..Len(nodes) : \A k \in 1..Len(nodes[i].refs) :
+                      \E j \in 2..(l - 1) : T[j].ev = "ref" /\ T[j].name = nodes[i].refs[k])
+
 TEnd == /\ l <= Len(T) /\ Ev.ev = "end"
         /\ Check("no_crash", Ev.status \in {"ok", "pyxform_error"})
         /\ Check("predicted_rejection", outcome.status = "error" => Ev.status = "pyxform_error")
         /\ Check("accepted_means_spec_done", Ev.status = "ok" => outcome.status = "done")
         /\ (Ev.status = "ok" =>
               /\ (Prop = "C04" => C04Env)
-              /\ (Prop = "C02" => C02Env))
+              /\ (Prop = "C02" => C02Env)
+              /\ (Prop = "C03" => C03Env))
         /\ l' = l + 1 /\ UNCHANGED <<rpvars, tid>>
 
-TNext == TRow \/ TRowsDone \/ TEnd
+TNext == TRow \/ TRowsDone \/ TRef \/ TEnd
 TSpec == TInit /\ [][TNext]_tvars
 
 Accepted == (l = Len(T) + 1) => PrintT(<<"ACCEPT", tid>>)
